@@ -289,6 +289,12 @@ def query_traversal(node, callback, is_table=False, is_target=False, parent_quer
             if node_out is not None:
                 node.where = node_out
 
+    elif isinstance(node, ast.Show):
+        if node.where is not None:
+            node_out = query_traversal(node.where, callback, parent_query=node)
+            if node_out is not None:
+                node.where = node_out
+
     elif isinstance(node, ast.OrderBy):
         if node.field is not None:
             node_out = query_traversal(node.field, callback, parent_query=parent_query)
